@@ -28,7 +28,12 @@ RULE = ("per case: a container class (H/D/T/M), int or string node labels, weigh
         "remove_attr_from_*) or the whole-dictionary setters; two with permuted insertion and node-listing order, split weights, "
         "set-then-overwrite metadata, metadata built field by field (overwritten and removed attributes), hyperedges built by "
         "shrinking (remove_node keep_edges=True), insert-then-remove detours of extra hyperedges/nodes, remove-and-rebuild of "
-        "real nodes, clear-and-rebuild, calls that are rejected, continuation on obj.copy() (the original must not change); "
+        "real nodes (after marks on the node and its hyperedges), clear-and-rebuild, calls that are rejected, continuation on "
+        "obj.copy() (the original must not change); COLLIDING shrinks (remove_node / remove_nodes keep_edges=True whose shrunken "
+        "hyperedges meet an existing hyperedge or each other: weights add up, last record counts; the merged hyperedge is used "
+        "further and a member of it removed and rebuilt); every setter called 1-3 times for ONE key (set_node_metadata, "
+        "set_edge_metadata, set_hypergraph_metadata, set_attr_to_*, Multiplex set_layer_metadata / set_dataset_metadata, add_node, "
+        "add_edge, set_weight, add_nodes, an entry listed twice in a batch) with earlier records that have fields the last lacks; "
         "in 65% of the cases the SAME 1-5 attribute-level edits (nodes, hyperedges, hypergraph; some rejected) are appended "
         "to all four histories; plus 4-6 single-element edits of the resulting content (node, hyperedge, weight value, 1 vs 1.0, "
         "time, layer, direction, weightedness (constructor flag; flag alone with equal hypergraph metadata, also switched on "
@@ -439,7 +444,7 @@ class Presenter:
                     self.tn.add(op[1])
                 elif op[0] in ("seteattr", "deleattr"):
                     self.te.append(canon_key(kind, canon_free(kind, op[1])))
-                elif op[0] in ("sethattr", "clear"):
+                elif op[0] in ("sethattr", "setlayer", "setds", "clear"):
                     self.th = True
 
     def spec(self):
@@ -637,6 +642,11 @@ def apply_op_(kind, h, op, P=FRESH):
                 h.remove_attr_from_edge_metadata(tuple(k[0]), k[1], f)
         elif name == "sethattr":
             h.set_attr_to_hypergraph_metadata(op[1], P.attr(op[2], lambda: h.get_hypergraph_metadata()))
+        elif name == "setlayer":
+            # MultiplexHypergraph: the record of a layer lives in the hypergraph metadata under the layer's name
+            h.set_layer_metadata(op[1], P.attr(op[2], lambda: h.get_hypergraph_metadata()))
+        elif name == "setds":
+            h.set_dataset_metadata(P.attr(op[1], lambda: h.get_hypergraph_metadata()))
         elif name == "addnodes":
             # every metadata entry is its own fresh object: sharing can only come from the implementation
             ns, mds = op[1], (None if op[2] is None else [P.top(m, ("n", n)) for n, m in zip(op[1], op[2])])
@@ -742,6 +752,11 @@ def wire_op(kind, slot, op, rank, lrank):
         return "deleattr %d %s %s" % (slot, wk(op[1]), op[2])
     if name == "sethattr":
         return "sethattr %d %s %s" % (slot, op[1], wire(op[2]))
+    if name == "setlayer":
+        # documented effect: hypergraph_metadata[layer_name] = record (REPLACES what was there)
+        return "sethattr %d %s %s" % (slot, op[1], wire(op[2]))
+    if name == "setds":
+        return "sethattr %d %s %s" % (slot, DS_KEY, wire(op[1]))
     raise AssertionError(name)
 
 
@@ -909,6 +924,7 @@ def gen_universe(rng):
 
 
 LAYERS = ["L0", "K", "beta", "A"]
+DS_KEY = "multiplex_metadata"          # where MultiplexHypergraph.set_dataset_metadata keeps its record
 
 
 def gen_weight(rng, weighted, kind):
@@ -1060,6 +1076,14 @@ def gen_target(kind, rng, pooled=False):
         w = gen_weight(rng, weighted, kind)
         tgt["edges"][k] = (w, gen_md(0.8 if sparse else 0.4))
     tgt["user_hm"] = None if rng.random() < 0.3 else gen_md(0.2)
+    if kind == "M" and rng.random() < 0.6:
+        # records of layers / of the dataset: entries of the hypergraph metadata (set_layer_metadata, set_dataset_metadata)
+        hm = dict(tgt["user_hm"] or {})
+        for lay in rng.sample(LAYERS, rng.choice([1, 1, 2])):
+            hm[lay] = gen_md(0.2)
+        if rng.random() < 0.4:
+            hm[DS_KEY] = gen_md(0.2)
+        tgt["user_hm"] = hm
     return tgt
 
 
@@ -1131,6 +1155,61 @@ def prefix_dict(md, rng):
     return {k: md[k] for k in ks[:rng.randint(0, max(0, len(ks) - 1))]}
 
 
+def junk_for(v, rng):
+    """what an EARLIER call of a setter stored under the key that holds v in the end.  Mostly a record with fields that v
+    lacks (a setter that merges, or that keeps the first record, shows), also v with one atom changed, {} and an
+    unrelated record"""
+    if not isinstance(v, dict):
+        return gen_value(rng, 1)
+    r = rng.random()
+    if r < 0.5:
+        out = copy.deepcopy(v)
+        free = [w for w in WORDS if w not in v and w not in ("type", "weighted")]
+        for k in rng.sample(free, min(len(free), rng.randint(1, 2))):
+            out[k] = gen_value(rng, 1)
+        if v and rng.random() < 0.5:
+            out[rng.choice(list(v))] = gen_value(rng, 1)
+        if rng.random() < 0.5:
+            items = list(out.items())
+            rng.shuffle(items)
+            out = dict(items)
+        return out
+    if r < 0.65 and v:
+        return edit_value(v, rng)
+    if r < 0.75:
+        return {}
+    return gen_dict(rng, p_empty=0.05)
+
+
+def repeated(setter, v, rng, n=None):
+    """ONE setter called 1-3 times for one key: every call replaces what the call before stored"""
+    n = rng.choice([0, 1, 1, 2]) if n is None else n
+    return [setter(junk_for(v, rng)) for _ in range(n)] + [setter(v)]
+
+
+def split_parts(w, n, rng):
+    """w as a sum of (up to) n terms that Python's + adds up exactly, left to right"""
+    parts = [w]
+    while len(parts) < n and can_split(parts[-1]) and sums_exact(parts):
+        a, b = split_weight(parts.pop(), rng)
+        if not sums_exact(parts + [a, b]):
+            parts.append(a + b)
+            break
+        parts += [a, b]
+    return parts
+
+
+def hm_setter(kind, f, rng):
+    """a call that stores a value under the field f of the hypergraph metadata"""
+    def call(v):
+        if kind == "M" and f == DS_KEY and rng.random() < 0.8:
+            return ["setds", v]
+        if kind == "M" and f in LAYERS and rng.random() < 0.8:
+            return ["setlayer", f, v]
+        return ["sethattr", f, v]
+    return call
+
+
 def gen_history(tgt, rng, fancy):
     """ops list ending (under the documented semantics) in the target content; flags of what was used"""
     kind, weighted = tgt["kind"], tgt["weighted"]
@@ -1152,13 +1231,89 @@ def gen_history(tgt, rng, fancy):
         return None
     units = []
     tnodes = list(tgt["nodes"])
+    collided = []
+
+    def collide_unit(k, w, md):
+        """the hyperedge k comes out of remove_node(keep_edges=True) calls whose shrunken hyperedges MEET a hyperedge that is
+        there already (k itself, or another shrunken one): the documented effect is that of add_edge on an existing
+        hyperedge - weights add up (weighted), the record of the shrunken hyperedge replaces the one that was there"""
+        forms = ["base", "base", "two", "three", "chain"] + (["sides", "sides"] if kind == "D" else [])
+        form = rng.choice(forms)
+        nv = 1 if form in ("base", "sides") else 2
+        if len(extra) < nv:
+            return False
+        vs = [fresh_node() for _ in range(nv)]
+        nparts = 3 if form == "three" else 2
+        ws = split_parts(w, nparts, rng) if weighted else [None] * nparts
+        if len(ws) != nparts:
+            extra.extend(vs)
+            return False
+        jk = lambda: junk_for(md, rng) if rng.random() < 0.8 else None
+
+        def add(key, wt, m):
+            taken.add(key)
+            return ["addedge", perm_key(kind, key, rng), wt, m]
+        if form == "base":
+            ins = [add(k, ws[0], jk()), add(key_with(kind, k, vs[0], rng), ws[1], md)]
+            rng.shuffle(ins)
+        elif form == "two":
+            ins = [add(key_with(kind, k, vs[0], rng), ws[0], jk()), add(key_with(kind, k, vs[1], rng), ws[1], md)]
+            rng.shuffle(ins)
+        elif form == "three":
+            ins = [add(k, ws[0], jk()), add(key_with(kind, k, vs[0], rng), ws[1], jk()),
+                   add(key_with(kind, k, vs[1], rng), ws[2], md)]
+            rng.shuffle(ins)
+        elif form == "chain":
+            big = key_with(kind, key_with(kind, k, vs[0], rng), vs[1], rng)
+            taken.add(key_without(kind, big, vs[0]))
+            ins = [add(k, ws[0], jk()), add(big, ws[1], md)]
+            rng.shuffle(ins)
+        else:
+            # directed: the node on the source side of one hyperedge and on the target side of another one, both
+            # shrink to k in ONE call (same record on both: which of them is handled last is not documented)
+            ins = [add(canon_key(kind, (list(k[0]) + [vs[0]], k[1])), ws[0], md),
+                   add(canon_key(kind, (k[0], list(k[1]) + [vs[0]])), ws[1], md)]
+            rng.shuffle(ins)
+        if len(vs) == 2 and kind != "M" and rng.random() < 0.5:
+            rm = [["rmnodes", list(vs), 1]]
+        else:
+            rm = [["rmnode", v, 1] for v in vs]
+        u = ins + rm
+        # the merged hyperedge is used afterwards like any other one
+        r2 = rng.random()
+        if r2 < 0.15:
+            u += [["rmedge", perm_key(kind, k, rng)], ["addedge", perm_key(kind, k, rng), w, md]]
+        elif r2 < 0.3 and weighted:
+            u += [["setw", perm_key(kind, k, rng), gen_weight(rng, True, kind)], ["setw", perm_key(kind, k, rng), w]]
+        elif r2 < 0.45:
+            f = rng.choice([x for x in WORDS if x not in md])
+            u += [["seteattr", perm_key(kind, k, rng), f, gen_value(rng, 1)], ["deleattr", perm_key(kind, k, rng), f]]
+        elif r2 < 0.55 and can_set:
+            u += repeated(lambda v: ["setem", perm_key(kind, k, rng), v], md, rng, n=1)
+        units.append(u)
+        collided.append(k)
+        return True
     # --- nodes
     for n, md in tgt["nodes"].items():
         in_edge = any(n in key_nodes(kind, k) for k in tgt["edges"])
         r = rng.random() if fancy else 0.0
-        if r < 0.45:
+        if fancy and not in_edge and r < 0.2:
+            # an isolated node removed and added again: nothing of its first record survives (hyperedges that other
+            # calls hung on it in between go with it; they were detours)
+            units.append([["addnode", n, junk_for(md, rng)], ["rmnode", n, 0],
+                          ["addnode", n, md if (md or rng.random() < 0.5) else None]])
+            used.add("readd")
+        elif r < 0.45:
             if md == {} and in_edge and fancy and rng.random() < 0.5:
                 units.append([])                       # created by its hyperedges
+            elif fancy and md and rng.random() < 0.3:
+                # add_node again: a node that has a non-empty record keeps it, an empty record is filled
+                u = [["addnode", n, None if rng.random() < 0.5 else {}]] if rng.random() < 0.5 else []
+                u.append(["addnode", n, md])
+                for _ in range(rng.choice([1, 1, 2])):
+                    u.append(["addnode", n, junk_for(md, rng) if rng.random() < 0.8 else None])
+                units.append(u)
+                used.add("repeat")
             else:
                 units.append([["addnode", n, md if (md or rng.random() < 0.5) else None]])
         elif r < 0.7:
@@ -1170,10 +1325,11 @@ def gen_history(tgt, rng, fancy):
         elif not can_set:
             units.append([["addnode", n, md if (md or rng.random() < 0.5) else None]])
         elif r < 0.85:
-            units.append([["addnode", n, None], ["setnm", n, md]])
+            units.append([["addnode", n, None]] + repeated(lambda v: ["setnm", n, v], md, rng))
             used.add("overwrite")
         else:
-            units.append([["addnode", n, gen_dict(rng, p_empty=0.1)], ["setnm", n, md]])
+            # the whole-record setter called two / three times for one node: only the last record counts
+            units.append([["addnode", n, gen_dict(rng, p_empty=0.1)]] + repeated(lambda v: ["setnm", n, v], md, rng))
             used.add("overwrite")
     # --- hyperedges
     for k, (w, md) in tgt["edges"].items():
@@ -1187,17 +1343,24 @@ def gen_history(tgt, rng, fancy):
                          attr_build("seteattr", "deleattr", pk, md, rng, have=pre))
             used.add("attr-build")
         elif r < 0.5 and ((weighted and can_split(w)) or (not weighted and rng.random() < 0.5)):
-            # the hyperedge is inserted twice: weights add up (weighted), the metadata of the second call replaces the
-            # first one - also when the second call passes none
-            a, b = split_weight(w, rng) if weighted else (None, None)
-            units.append([["addedge", pk(), a, gen_dict(rng)], ["addedge", pk(), b, md if (md or rng.random() < 0.5) else None]])
+            # the hyperedge is inserted two / three times: weights add up (weighted), the metadata of the last call replace
+            # the earlier ones - also when the last call passes none
+            parts = split_parts(w, rng.choice([2, 2, 3]), rng) if weighted else [None] * rng.choice([2, 2, 3])
+            u = [["addedge", pk(), a, (gen_dict(rng) if rng.random() < 0.4 else junk_for(md, rng))] for a in parts[:-1]]
+            u.append(["addedge", pk(), parts[-1], md if (md or rng.random() < 0.5) else None])
+            units.append(u)
             used.add("split")
         elif r < 0.6 and can_set:
-            units.append([["addedge", pk(), w, gen_dict(rng, p_empty=0.1)], ["setem", pk(), md]])
+            units.append([["addedge", pk(), w, gen_dict(rng, p_empty=0.1)]] + repeated(lambda v: ["setem", pk(), v], md, rng))
             used.add("overwrite")
         elif r < 0.7 and weighted:
-            units.append([["addedge", pk(), gen_weight(rng, True, kind), md], ["setw", pk(), w]])
+            u = [["addedge", pk(), gen_weight(rng, True, kind), md]]
+            for _ in range(rng.choice([0, 0, 1, 2])):
+                u.append(["setw", pk(), gen_weight(rng, True, kind)])
+            units.append(u + [["setw", pk(), w]])
             used.add("overwrite")
+        elif r < 0.8 and fancy and (not weighted or can_split(w)) and collide_unit(k, w, md):
+            used.add("collide")
         elif r < 0.85:
             v = fresh_node()
             if v is None:
@@ -1208,19 +1371,37 @@ def gen_history(tgt, rng, fancy):
                 units.append([["addedge", perm_key(kind, kv, rng), w, md], ["rmnode", v, 1]])
                 used.add("shrink")
         else:
-            units.append([["addedge", pk(), w, md], ["rmedge", pk()], ["addedge", pk(), w, md]])
+            # removed and inserted again: nothing of the first life (weight, record) may survive - also when the second
+            # insertion passes no record
+            first = ["addedge", pk(), w, md]
+            if fancy and rng.random() < 0.6:
+                first = ["addedge", pk(), gen_weight(rng, weighted, kind), junk_for(md, rng)]
+            units.append([first, ["rmedge", pk()], ["addedge", pk(), w, md if (md or rng.random() < 0.5) else None]])
             used.add("readd")
     # --- hypergraph metadata
     head = []
     if fancy and rng.random() < 0.3:
-        units.append([["sethm", gen_dict(rng)], ["sethm", final_hmeta(tgt)]])
+        u = [["sethm", gen_dict(rng)]]
+        if rng.random() < 0.4:
+            u.append(["sethm", junk_for(final_hmeta(tgt), rng)])
+        units.append(u + [["sethm", final_hmeta(tgt)]])
         used.add("overwrite")
-    elif fancy and rng.random() < 0.3:
-        # constructor with a part of the hypergraph metadata, the rest through set_attr_to_hypergraph_metadata
+    elif fancy and rng.random() < (0.75 if (kind == "M" and any(f in LAYERS or f == DS_KEY for f in (tgt["user_hm"] or {}))) else 0.4):
+        # constructor with a part of the hypergraph metadata, the rest field by field: set_attr_to_hypergraph_metadata,
+        # for the records of layers / of the dataset of a multiplex hypergraph set_layer_metadata / set_dataset_metadata;
+        # each of them called one to three times for its field (every call REPLACES what the field held), also for a
+        # field that the constructor was given already
         uhm = tgt["user_hm"] or {}
         part = prefix_dict(uhm, rng)
+        later = [f for f in uhm if f not in part and f not in ("weighted", "type")]
+        again = [f for f in part if f not in ("weighted", "type") and rng.random() < 0.3]
+        for f in later:
+            if rng.random() < 0.3:
+                part[f] = junk_for(uhm[f], rng)
         head = [["ctor", weighted, (part if (part or rng.random() < 0.5) else None), None, None, None, None, False]]
-        units.append([["sethattr", f, v] for f, v in uhm.items() if f not in part and f not in ("weighted", "type")])
+        for f in later + again:
+            units.append(repeated(hm_setter(kind, f, rng), uhm[f], rng, n=(rng.choice([1, 1, 2]) if f in again else None)))
+            used.add("repeat")
         used.add("attr-build")
     # --- content-neutral detours
     if fancy:
@@ -1295,8 +1476,12 @@ def gen_history(tgt, rng, fancy):
         used.add("rejected")
     ops = interleave(units, rng) if fancy else [o for u in units for o in u]
     # --- suffix: remove a real node and rebuild it
-    if fancy and tnodes and rng.random() < 0.4:
+    if fancy and tnodes and rng.random() < (0.7 if collided else 0.4):
         u = rng.choice(tnodes)
+        if collided and rng.random() < 0.7:
+            # a member of a hyperedge that came out of a merge: removing it walks the incidence lists that the
+            # remove_node(keep_edges=True) calls left behind
+            u = rng.choice(key_nodes(kind, rng.choice(collided)))
         keep = rng.random() < 0.4
         inc = [k for k in tgt["edges"] if u in key_nodes(kind, k)]
         if keep and weighted:
@@ -1309,6 +1494,14 @@ def gen_history(tgt, rng, fancy):
                     groups.setdefault(f, [tgt["edges"][f][0]] if (f in tgt["edges"] and f not in inc) else []).append(tgt["edges"][k][0])
             if any(len(ws) >= 2 and not sums_exact(ws) for ws in groups.values()):
                 keep = False
+        if rng.random() < 0.5:
+            # marks on the node and its hyperedges that the removal must take away with them
+            jf = rng.choice([x for x in WORDS if x not in tgt["nodes"][u]])
+            ops.append(["setnattr", u, jf, gen_value(rng, 1)])
+            for k in inc:
+                if rng.random() < 0.6:
+                    free = [x for x in WORDS if x not in tgt["edges"][k][1]]
+                    ops.append(["seteattr", perm_key(kind, k, rng), rng.choice(free), gen_value(rng, 1)])
         ops.append(["rmnode", u, 1 if keep else 0])
         touched = []
         if keep:
@@ -1442,6 +1635,13 @@ def gen_batched(tgt, rng):
             node_ops.append(op)
         if not node_meta:
             node_late = [complete_node(n) for n in later]
+        else:
+            sub = [n for n in later if tgt["nodes"][n]]
+            if sub and rng.random() < 0.35:
+                # a second batch for nodes that have their records already: it changes nothing
+                sub = rng.sample(sub, rng.randint(1, len(sub)))
+                node_ops.append(["addnodes", sub, [junk_for(tgt["nodes"][n], rng) for n in sub]])
+                used.add("repeat")
     # ---- hyperedges
     batch = list(first)
     ws = [tgt["edges"][k][0] for k in batch] if weighted else None
@@ -1452,6 +1652,14 @@ def gen_batched(tgt, rng):
             ws.append(1)
         if edge_meta:
             mds.append({"tmp": 1})
+    if not weighted and batch and rng.random() < 0.3:
+        # one hyperedge listed twice in the batch / in the constructor's list: the later entry is the one that counts
+        i = rng.randrange(len(batch))
+        j = rng.randint(0, i)
+        if edge_meta:
+            mds.insert(j, junk_for(mds[i], rng))
+        batch.insert(j, batch[i])
+        used.add("repeat")
     keys = [perm_key(kind, k, rng) for k in batch]
     if mode == "calls" and first and rng.random() < 0.3:
         # a hyperedge of the batch exists already: the batch adds its weight to it and REPLACES its metadata
@@ -2275,12 +2483,22 @@ def gen_attr_edits(tgt, rng, n):
     kind = tgt["kind"]
     t = copy.deepcopy(tgt)
     ops = []
+    last = {}
     for _ in range(n):
-        r = rng.random()
+        # 35 %: the same kind of call on the same node / hyperedge / field as the edit before (second and third calls of a
+        # setter for one key)
+        again = bool(last) and rng.random() < 0.35
+        r = last["r"] if again else rng.random()
+        last["r"] = r
         if r < 0.42 and t["nodes"]:
-            x = rng.choice(list(t["nodes"]))
+            x = last["n"] if (again and last.get("n") in t["nodes"]) else rng.choice(list(t["nodes"]))
+            last["n"] = x
             md = dict(t["nodes"][x])
-            if md and rng.random() < 0.35:
+            if kind != "M" and rng.random() < 0.3:
+                # the whole record replaced
+                md = junk_for(md, rng)
+                ops.append(["setnm", x, md])
+            elif md and rng.random() < 0.35:
                 f = rng.choice(list(md))
                 ops.append(["delnattr", x, f])
                 del md[f]
@@ -2290,10 +2508,18 @@ def gen_attr_edits(tgt, rng, n):
                 md[f] = v
             t["nodes"][x] = md
         elif r < 0.82 and t["edges"]:
-            k = rng.choice(list(t["edges"]))
+            k = last["k"] if (again and last.get("k") in t["edges"]) else rng.choice(list(t["edges"]))
+            last["k"] = k
             w, md = t["edges"][k]
             md = dict(md)
-            if md and rng.random() < 0.35:
+            if rng.random() < 0.3 and (kind != "M" or not t["weighted"]):
+                # the whole record replaced (multiplex, unweighted: by inserting the hyperedge again)
+                md = junk_for(md, rng)
+                if kind != "M":
+                    ops.append(["setem", perm_key(kind, k, rng), md])
+                else:
+                    ops.append(["addedge", perm_key(kind, k, rng), None, md])
+            elif md and rng.random() < 0.35:
                 f = rng.choice(list(md))
                 ops.append(["deleattr", perm_key(kind, k, rng), f])
                 del md[f]
@@ -2303,9 +2529,19 @@ def gen_attr_edits(tgt, rng, n):
                 md[f] = v
             t["edges"][k] = (w, md)
         elif r < 0.9:
-            f, v = rng.choice([w for w in WORDS if w != "type"]), gen_value(rng, 1)
-            ops.append(["sethattr", f, v])
             t["user_hm"] = dict(t["user_hm"] or {})
+            if kind == "M" and rng.random() < 0.6:
+                # the record of a layer / of the dataset replaced
+                f = last["f"] if (again and last.get("f") in LAYERS + [DS_KEY]) else rng.choice(LAYERS[:2] + [DS_KEY])
+                v = junk_for(t["user_hm"].get(f, {}), rng)
+                if not isinstance(v, dict):
+                    v = gen_dict(rng)
+                ops.append(hm_setter(kind, f, rng)(v))
+            else:
+                f = last["f"] if (again and last.get("f") in WORDS) else rng.choice([w for w in WORDS if w != "type"])
+                v = gen_value(rng, 1)
+                ops.append(["sethattr", f, v])
+            last["f"] = f
             t["user_hm"][f] = v
         else:
             # rejected: a field that is not there, a node / hyperedge that is not there
